@@ -84,6 +84,30 @@ func c15Equal(a, b any) bool {
 	return reflect.DeepEqual(a, b)
 }
 
+// c15Mutate changes the value in place, as a handler may.
+func c15Mutate(v any) {
+	switch x := v.(type) {
+	case *jA:
+		x.ID += "-changed-by-a-handler"
+		x.Attrs = map[string]string{"changed": "yes"}
+	case *jB:
+		x.Text += "-changed-by-a-handler"
+	case *jC:
+		x.Flag = !x.Flag
+		x.Tags = append(x.Tags, "changed-by-a-handler")
+	case *jD:
+		x.X += 1000
+	case *wrapperspb.StringValue:
+		x.Value += "-changed-by-a-handler"
+	case *wrapperspb.Int64Value:
+		x.Value++
+	case *wrapperspb.BoolValue:
+		x.Value = !x.Value
+	case *durationpb.Duration:
+		x.Seconds += 1000
+	}
+}
+
 type c15Rec func(handler string, typ int, ctx context.Context, v any) error
 
 func c15Cmd[T any](name string, typ int, rec c15Rec) cqrs.CommandHandler {
@@ -343,7 +367,8 @@ func c15Body(r *Run) {
 	// a third of the group runs: the Run context (hence every message context) is cancelled inside the k-th handler
 	// invocation; the remaining matching handlers of that message must still be called
 	cancelAtCall := -1
-	if procKind == 2 && t.Chance(1, 3) {
+	if (procKind == 2 || procKind == 0) && t.Chance(1, 3) {
+		// (also inside a command handler: a failing one is still settled as AckCommandHandlingErrors says)
 		cancelAtCall = 1 + t.Int(4)
 		r.Param("cancel_in_group", 1)
 	}
@@ -375,6 +400,8 @@ func c15Body(r *Run) {
 			c.err = errC15
 		}
 		calls = append(calls, c)
+		// the handler owns the value it was given and changes it: the next handler of the same message gets its own
+		c15Mutate(v)
 		return c.err
 	}
 	mkSub := func(topic string) *ScriptedSubscriber {
